@@ -3,6 +3,7 @@ package builder
 import (
 	"errors"
 	"fmt"
+	"sort"
 
 	"github.com/mna/pigeon/ast"
 )
@@ -36,9 +37,20 @@ func ComputeNullables(rules map[string]*ast.Rule) {
 	// nullable" and re-evaluate until no rule changes. A single pass gave
 	// results (and cached per-expression flags) that depended on the map
 	// iteration order for rules referring to each other.
+	//
+	// The rules are visited in the order of their names: the flags cached on
+	// the expressions of a rule record what was known when the expression was
+	// last visited (a choice stops at its first nullable alternative), so they
+	// must not depend on the iteration order of the map either.
+	names := make([]string, 0, len(rules))
+	for name := range rules {
+		names = append(names, name)
+	}
+	sort.Strings(names)
 	for changed := true; changed; {
 		changed = false
-		for _, rule := range rules {
+		for _, name := range names {
+			rule := rules[name]
 			before := rule.Nullable
 			if rule.NullableVisit(rules) != before {
 				changed = true
